@@ -1163,10 +1163,12 @@ class SBytes:
         return SBytes.of(o)._lex(self, False)
 
     def __hash__(self):
+        if ENGINE is not None and ENGINE.hash_const:
+            # rib-kit mode: EVERY carrier hashes alike, plain dicts probe by (symbolic) __eq__.  Sound as long as
+            # the dict holds carrier keys only (a real `bytes` key would hash differently).
+            return 0
         if self.is_concrete():
             return hash(_bytes(self.items))
-        if ENGINE is not None and ENGINE.hash_const:
-            return 0
         return hash(self.concrete())
 
     def __bytes__(self):
@@ -1414,11 +1416,18 @@ class IteDict(dict):
         if _isinstance(k, SInt):
             if d is None or not _is_num(d):
                 return SDict.get(SDict(self), k, d)
-            e = lift(d)
-            vals = [d]
-            for key, v in dict.items(self):
+            items = [(key, v) for key, v in dict.items(self)
+                     if (k.lo is None or key >= k.lo) and (k.hi is None or key <= k.hi)]
+            full = k.lo is not None and k.hi is not None and _len(items) == k.hi - k.lo + 1
+            if full and _len(set(_int(v) for _, v in items)) == 1 and not _isinstance(items[0][1], SInt):
+                return items[0][1]
+            e = lift(items[-1][1]) if full else lift(d)
+            vals = [] if full else [d]
+            for key, v in (items[:-1] if full else items):
                 e = z3.If(k.e == key, lift(v), e)
                 vals.append(v)
+            if full:
+                vals.append(items[-1][1])
             los = [lo_of(v) for v in vals]
             his = [hi_of(v) for v in vals]
             return SInt._mk(e, None if None in los else min(los), None if None in his else max(his))
